@@ -17,7 +17,6 @@ import (
 	"unicode/utf8"
 
 	"golang.org/x/crypto/sha3"
-	"golang.org/x/tools/go/ssa"
 
 	"symgo/term"
 )
@@ -550,9 +549,6 @@ func init() {
 	reg("crypto/sha256.Sum256", func(fr *frame, args []value) value {
 		return array(bytesValue(hashBytes(fr, "sha256", args[0].([]value))))
 	})
-	regPrefix("(*crypto/sha256.digest).", func(fr *frame, fn *ssa.Function, name string, args []value) (value, bool) {
-		panic(unsupported("streaming sha256 (" + name + ")"))
-	})
 
 	// ---- errors ----
 	reg("errors.New", func(fr *frame, args []value) value { return errorValue(fr, args[0]) })
@@ -670,4 +666,74 @@ func realHash(fn string, b []byte) []byte {
 		return h[:]
 	}
 	panic("realHash " + fn)
+}
+
+// ---- streaming hash objects (sha3 keccak, sha256.New) ----
+
+type hashState struct {
+	fn  string
+	buf []value
+}
+
+func newHashObj(fr *frame, pkgPath, typeName, fn string) value {
+	pkg := fr.i.prog.ImportedPackage(pkgPath)
+	if pkg == nil {
+		panic(unsupported("package not loaded: " + pkgPath))
+	}
+	t := pkg.Type(typeName).Type()
+	var cell value = &hashState{fn: fn}
+	return iface{types.NewPointer(t), &cell}
+}
+
+func hashObj(recv value) *hashState {
+	p, ok := recv.(*value)
+	if !ok || p == nil {
+		panic("runtime error: invalid memory address or nil pointer dereference")
+	}
+	h, ok := (*p).(*hashState)
+	if !ok {
+		panic(unsupported("hash object not created through a modelled constructor"))
+	}
+	return h
+}
+
+func init() {
+	reg("golang.org/x/crypto/sha3.NewLegacyKeccak256", func(fr *frame, args []value) value {
+		return newHashObj(fr, "golang.org/x/crypto/sha3", "state", "keccak256")
+	})
+	reg("golang.org/x/crypto/sha3.New256", func(fr *frame, args []value) value {
+		return newHashObj(fr, "golang.org/x/crypto/sha3", "state", "sha3-256")
+	})
+	reg("crypto/sha256.New", func(fr *frame, args []value) value {
+		return newHashObj(fr, "crypto/sha256", "digest", "sha256")
+	})
+	for _, recv := range []string{"(*golang.org/x/crypto/sha3.state).", "(*crypto/sha256.digest)."} {
+		reg(recv+"Write", func(fr *frame, args []value) value {
+			h := hashObj(args[0])
+			b := args[1].([]value)
+			h.buf = append(h.buf, b...)
+			return tuple{len(b), nilError()}
+		})
+		reg(recv+"Sum", func(fr *frame, args []value) value {
+			h := hashObj(args[0])
+			var pre []value
+			if args[1] != nil {
+				pre = args[1].([]value)
+			}
+			return append(append([]value{}, pre...), bytesValue(hashBytes(fr, h.fn, h.buf))...)
+		})
+		reg(recv+"Reset", func(fr *frame, args []value) value {
+			hashObj(args[0]).buf = nil
+			return nil
+		})
+		reg(recv+"Read", func(fr *frame, args []value) value {
+			h := hashObj(args[0])
+			out := args[1].([]value)
+			d := bytesValue(hashBytes(fr, h.fn, h.buf))
+			n := copy(out, d)
+			return tuple{n, nilError()}
+		})
+		reg(recv+"Size", func(fr *frame, args []value) value { return 32 })
+		reg(recv+"BlockSize", func(fr *frame, args []value) value { return 64 })
+	}
 }
